@@ -14,7 +14,7 @@ const SINGLE: [&[usize]; 4] = [&[0, 1, 8], &[2], &[5], &[9]];
 fn ops(sites: Vec<usize>, max: usize) -> impl Strategy<Value = Vec<Op>> {
     // mostly through the client; some assertions directly at the CTAP2 level (any held credential, also ones whose RP ID
     // the client would never produce)
-    proptest::collection::vec(prop_oneof![4 => cm::reg_op(sites.clone()).prop_map(Op::Reg), 6 => cm::auth_op(sites).prop_map(Op::Auth), 1 => (any::<u16>(), any::<bool>()).prop_map(|(target, uv)| Op::CtapAuth { target, up: true, uv, extra_uv: false })], 1..max)
+    proptest::collection::vec(prop_oneof![4 => cm::reg_op(sites.clone()).prop_map(Op::Reg), 6 => cm::auth_op(sites).prop_map(Op::Auth), 1 => (any::<u16>(), proptest::bool::weighted(0.6), any::<bool>()).prop_map(|(target, up, uv)| Op::CtapAuth { target, up, uv, extra_uv: false })], 1..max)
 }
 
 fn strategy() -> impl Strategy<Value = History> {
@@ -77,7 +77,7 @@ fn check(ctx: &mut Ctx, h: &History) -> Result<(), String> {
 }
 
 pub fn run(ctx: &mut Ctx) {
-    ctx.rule = "interleaved histories (up to 12 operations) of registrations and authentications over 2-4 (origin, RP ID) sites and several users, pre-loaded credentials, allow lists (absent, empty, known ids, unknown ids, ids of another RP, unknown descriptor types), challenges, client-data modes and UV requirements; multi-RP histories on the reference store (sites include names below 'localhost'; some pre-loaded credentials are held for mixed-case RP IDs that only a CTAP2-level caller can name), single-RP histories also on MemoryStore and the single-slot Option store; about one operation in eleven is an assertion made directly at the CTAP2 level and judged the same way (rpIdHash, signature, user handle). Non-trivial = an authentication that reached the authenticator (success or credential-not-found); distinct by (store, preload, position, request).".into();
+    ctx.rule = "interleaved histories (up to 12 operations) of registrations and authentications over 2-4 (origin, RP ID) sites and several users, pre-loaded credentials, allow lists (absent, empty, known ids, unknown ids, ids of another RP, unknown descriptor types), challenges, client-data modes and UV requirements; multi-RP histories on the reference store (sites include names below 'localhost'; some pre-loaded credentials are held for mixed-case RP IDs that only a CTAP2-level caller can name), single-RP histories also on MemoryStore and the single-slot Option store; about one operation in eleven is an assertion made directly at the CTAP2 level — with and without the up / uv options, the validation step reporting exactly what was asked — and judged the same way (rpIdHash, signature, user handle). Non-trivial = an authentication that reached the authenticator (success or credential-not-found); distinct by (store, preload, position, request).".into();
     ctx.assumptions = vec![
         "the user always consents (presence and verification reported); consent failures are C04".into(),
         "eligible = credentials registered for the effective RP ID and, for a non-empty allow list, named in it (by id, regardless of descriptor type)".into(),
